@@ -24,6 +24,9 @@ pub enum Zone {
     Accept(Expected),
     Reject(&'static str),
     Unspecified(&'static str),
+    /// accepting or rejecting are both fine, but an accepted framework must be this one
+    /// (undecodable bytes confined to comment lines: the rest of the file must not be dropped)
+    Either(Expected),
 }
 
 fn split_lines(s: &str) -> Vec<&str> {
@@ -57,7 +60,26 @@ fn plain_number(t: &str) -> Option<u64> {
 pub fn classify_iccma(bytes: &[u8]) -> Zone {
     let s = match std::str::from_utf8(bytes) {
         Ok(s) => s,
-        Err(_) => return Zone::Unspecified("not UTF-8"),
+        Err(_) => {
+            // undecodable bytes only inside comment lines: blank those comments and classify the rest
+            let mut cleaned: Vec<u8> = vec![];
+            for (i, line) in bytes.split(|b| *b == b'\n').enumerate() {
+                if i > 0 {
+                    cleaned.push(b'\n');
+                }
+                if std::str::from_utf8(line).is_ok() {
+                    cleaned.extend_from_slice(line);
+                } else if line.first() == Some(&b'#') {
+                    cleaned.push(b'#');
+                } else {
+                    return Zone::Unspecified("not UTF-8 outside comments");
+                }
+            }
+            return match classify_iccma(&cleaned) {
+                Zone::Accept(e) => Zone::Either(e),
+                _ => Zone::Unspecified("not UTF-8"),
+            };
+        }
     };
     let mut n: Option<u64> = None;
     let mut blank_seen = false;
@@ -115,6 +137,9 @@ pub fn classify_iccma(bytes: &[u8]) -> Zone {
                         idx[k] = v as usize - 1;
                     } else if t.parse::<i64>().map(|v| v < 0).unwrap_or(false) {
                         return Zone::Reject("negative index");
+                    } else if t.len() > 18 && !t.starts_with('0') && t.chars().all(|c| c.is_ascii_digit()) {
+                        // a plain number too large for 64 bits is certainly beyond the declared size
+                        return Zone::Reject("index out of range");
                     } else {
                         return Zone::Unspecified("token that is not a plain number");
                     }
@@ -261,7 +286,7 @@ pub fn check_input(fmt: Format, bytes: &[u8], probe_tokens: &[&str]) -> Result<(
         Format::Apx => classify_apx(bytes),
     };
     let exp = match &zone {
-        Zone::Accept(e) => Some(e.clone()),
+        Zone::Accept(e) | Zone::Either(e) => Some(e.clone()),
         _ => None,
     };
     let res: Result<Result<bool, String>, String> = catch(|| match fmt {
@@ -333,7 +358,7 @@ pub fn check_input(fmt: Format, bytes: &[u8], probe_tokens: &[&str]) -> Result<(
                     Ok((1, false))
                 }
             }
-            Zone::Unspecified(_) => Ok((2, accepted)),
+            Zone::Unspecified(_) | Zone::Either(_) => Ok((2, accepted)),
         },
     }
 }
@@ -416,9 +441,10 @@ impl Acc {
     }
 }
 
-pub const ICCMA_TOKENS: [&str; 15] = ["p", "af", "0", "1", "2", "3", "-1", "x", "#c", " ", "  ", "\t", "\n", "\r\n", "\n\n"];
+pub const ICCMA_TOKENS: [&str; 16] = ["p", "af", "0", "1", "2", "3", "-1", "x", "#c", " ", "  ", "\t", "\n", "\r\n", "\n\n", "18446744073709551617"];
 pub const APX_TOKENS: [&str; 13] = ["arg(", "att(", "a", "b", "1a", "_", ",", ").", ")", ".", " ", "\n", "\r\n"];
-pub const ICCMA_LINES: [&str; 28] = [
+pub const ICCMA_LINES: [&str; 32] = [
+    "18446744073709551617 1", "2 18446744073709551617", "4294967297 1", "p af 18446744073709551618",
     "p af 0", "p af 1", "p af 2", "p af 3", "p af", "p af x", "p af -1", "p aff 2", "q af 2", "p af 2 2", "1 1", "1 2", "2 1", "2 2", "3 1", "0 1", "-1 1", "1", "1 2 3", "x 1",
     "+1 1", "#c", "", " ", "1  2", " 1 2", "1 2 ", "1\t2",
 ];
